@@ -151,7 +151,10 @@ fn tagged_share(tag: usize, threshold: u32) -> Share {
   Share { A: AccessStructure { threshold }, S: s, C: vec![0xAAu8; tag], D: vec![0x55u8; tag + 3], J: j, T: () }
 }
 
-fn cut_harness<const N: usize>(result_ok: bool) {
+fn cut_harness<const N: usize>(result_ok: bool) { cut_harness_t::<N>(result_ok, None) }
+/// `fixed_t = Some(t)`: every share carries the CONCRETE threshold t (keeps CBMC small when the changed prologue
+/// uses the threshold to size something, e.g. `.take(threshold)`), the order of the shares stays symbolic
+fn cut_harness_t<const N: usize>(result_ok: bool, fixed_t: Option<u32>) {
   // three concrete prototype shares; position i holds a clone of prototype tags[i] (symbolic choice)
   let p1 = tagged_share(1, 0);
   let p2 = tagged_share(2, 0);
@@ -162,7 +165,7 @@ fn cut_harness<const N: usize>(result_ok: bool) {
   let mut i = 0;
   while i < N {
     let c: u8 = kani::any();
-    let th: u32 = kani::any();
+    let th: u32 = match fixed_t { Some(t) => t, None => kani::any() };
     let mut sh = if c == 0 { tags[i] = 1; p1.clone() } else if c == 1 { tags[i] = 2; p2.clone() } else { tags[i] = 3; p3.clone() };
     sh.A = AccessStructure { threshold: th };
     ths[i] = th;
@@ -208,6 +211,14 @@ fn cut_harness<const N: usize>(result_ok: bool) {
 #[kani::stub(zeroize::optimization_barrier, noop_barrier)]
 fn k_recover_cut_shares() {
   cut_harness::<2>(false);
+}
+/// ALL shares are handed on, also those beyond the threshold (3 shares, threshold 2 on each)
+#[kani::proof]
+#[kani::unwind(6)]
+#[kani::stub(star_sharks::Sharks::recover, stub_sharks_recover)]
+#[kani::stub(zeroize::optimization_barrier, noop_barrier)]
+fn k_recover_cut_surplus() {
+  cut_harness_t::<3>(false, Some(2));
 }
 #[kani::proof]
 #[kani::unwind(6)]
